@@ -59,8 +59,13 @@ theorem sort_perm (m : Mdoc) : (sortByTilt false m).rows.Perm m.rows := by
   simp only [sortByTilt, sortRowsBy, Bool.false_and, Bool.false_eq_true, if_false]
   exact List.mergeSort_perm _ _
 
-/-- the key `sort_by_tilt(reset_z_value=True)` assigns to is the literal "ZValue", whatever the section id of the object -/
-theorem reset_key_documented : Gen.C17.resetKey = ['Z', 'V', 'a', 'l', 'u', 'e'] ∧ Gen.C17.resetUsesSectionId = false := by decide
+/-- `sort_by_tilt(reset_z_value=True)` assigns to the section-id column of the object, `self.imgs[self.section_id]` (fix 6061ac6; before
+it the key was the literal "ZValue", which `resetKey` still records as the documented fallback) -/
+theorem reset_key_documented : Gen.C17.resetKey = ['Z', 'V', 'a', 'l', 'u', 'e'] ∧ Gen.C17.resetUsesSectionId = true := by decide
+
+/-- so the reset hits the section column of EVERY object, ZValue and FrameSet alike -/
+theorem reset_hits_section (m : Mdoc) : resetHitsSection m = true := by
+  simp [resetHitsSection, reset_key_documented.2]
 
 /-- header entries, titles and the section id are untouched, in every case -/
 theorem sort_keeps_info (m : Mdoc) (reset : Bool) :
@@ -71,17 +76,18 @@ theorem sort_keeps_info (m : Mdoc) (reset : Bool) :
   · split <;> exact ⟨rfl, rfl, rfl⟩
   · exact ⟨rfl, rfl, rfl⟩
 
-/-- header entries, titles, section id and columns are untouched — without `reset_z_value`, and with it whenever the reset hits the
-section column (a ZValue mdoc). (Before the hardening pass this was stated for every object; the model then renumbered `z` whatever the
-section id, which is not what the code does: see `sort_reset_foreign_adds_entry`.) -/
-theorem sort_keeps_header (m : Mdoc) (reset : Bool) (h : reset = false ∨ resetHitsSection m = true) :
+/-- header entries, titles, section id and columns are untouched, with and without `reset_z_value`, for every object (the hypothesis the
+hardening pass had to add while the source hard-coded the key "ZValue" is gone with fix 6061ac6: `reset_hits_section`) -/
+theorem sort_keeps_header (m : Mdoc) (reset : Bool) :
     (sortByTilt reset m).info = m.info ∧ (sortByTilt reset m).titles = m.titles ∧
     (sortByTilt reset m).sid = m.sid ∧ (sortByTilt reset m).cols = m.cols := by
-  have hc : (reset && !resetHitsSection m) = false := by
-    rcases h with h | h <;> simp [h]
+  have hc : (reset && !resetHitsSection m) = false := by simp [reset_hits_section m]
   simp only [sortByTilt, hc, Bool.false_eq_true, if_false, and_self]
 
-/-- **C17-K3, exactly.** On an object whose section column is not the hard-coded key (a FrameSet mdoc; no data column of that
+/-- **regression witness of the behaviour before fix 6061ac6 (then open finding C17-K3), kept as it was.** The hypothesis
+`resetHitsSection m = false` describes the OLD source (literal key "ZValue", FrameSet object); with the repaired source it is never met
+(`reset_hits_section`), and the revert of the fix makes `reset_key_documented` fail while this statement becomes applicable again.
+On an object whose section column is not the hard-coded key (a FrameSet mdoc; no data column of that
 name), `sort_by_tilt(reset_z_value=True)` does NOT change "only the order": the table gains a column `ZValue` and every image
 gains one entry (which `write` prints as `ZValue = k` inside every section), while the section values stay as they were. -/
 theorem sort_reset_foreign_adds_entry (m : Mdoc) (hs : resetHitsSection m = false) (hk : Gen.C17.resetKey ∉ m.cols) :
@@ -105,8 +111,16 @@ theorem sort_reset_foreign_adds_entry (m : Mdoc) (hs : resetHitsSection m = fals
   have := congrArg List.length h
   simp at this
 
-/-- non-vacuity: a FrameSet object (as long as the source hard-codes the key: when C17-K3 is repaired with `self.imgs[self.section_id]`, only the
-literal in `reset_key_documented` changes and `sort_reset_foreign_adds_entry` becomes vacuous) -/
+/-- what the old assignment did, on a concrete FrameSet object, independent of the flag: `resetForeign` (the transcription of
+`self.imgs["ZValue"] = range(n)`) appends a column and leaves the FrameSet values alone; the repaired `sortByTilt true` renumbers them -/
+def fs₀ : Mdoc :=
+  { info := [], titles := [], sid := "FrameSet".toList, cols := ["TiltAngle".toList],
+    rows := [{ z := "0".toList, cells := [Val.tilt false "3".toList "0".toList], removed := false },
+             { z := "0".toList, cells := [Val.tilt true "3".toList "0".toList], removed := false }] }
+example : (resetForeign fs₀).cols = ["TiltAngle".toList, "ZValue".toList] ∧ (resetForeign fs₀).rows.map (·.z) = ["0".toList, "0".toList] := by decide
+example : (sortByTilt true fs₀).cols = ["TiltAngle".toList] ∧ (sortByTilt true fs₀).sid = "FrameSet".toList :=
+  ⟨(sort_keeps_header fs₀ true).2.2.2, (sort_keeps_header fs₀ true).2.2.1⟩
+/-- (the old-source reading of the flag) -/
 example : Gen.C17.resetUsesSectionId = false →
     resetHitsSection { info := [], titles := [], sid := "FrameSet".toList, cols := ["TiltAngle".toList], rows := [] } = false := by decide
 example : resetHitsSection { info := [], titles := [], sid := "ZValue".toList, cols := ["TiltAngle".toList], rows := [] } = true := by decide
@@ -126,10 +140,10 @@ theorem sort_sorted (m : Mdoc) :
   simp only [sortByTilt, sortRowsBy, sort_key_documented.2.1, if_true, Bool.false_and, Bool.false_eq_true, if_false]
   exact h.imp (fun hab => by simpa using hab)
 
-/-- `reset_z_value=True` on an object whose section column the reset hits (ZValue mdoc) renumbers the section values and changes
-nothing else in a row (hypothesis added in the hardening pass: for other objects the code adds a column, `sort_reset_foreign_adds_entry`) -/
-theorem sort_reset_cells (m : Mdoc) (hs : resetHitsSection m = true) :
+/-- `reset_z_value=True` renumbers the section values and changes nothing else in a row, for every object (ZValue and FrameSet) -/
+theorem sort_reset_cells (m : Mdoc) :
     (sortByTilt true m).rows.map (fun r => (r.cells, r.removed)) = (sortByTilt false m).rows.map (fun r => (r.cells, r.removed)) := by
+  have hs := reset_hits_section m
   simp only [sortByTilt, hs, Bool.not_true, Bool.and_false, Bool.false_and, Bool.false_eq_true, if_false, renumber, if_true, List.map_map]
   generalize sortRowsBy _ _ _ = rows
   have : ∀ n, List.map ((fun r : Row => (r.cells, r.removed)) ∘ fun p : Row × Nat => { p.1 with z := Nat.toDigits 10 p.2 }) (rows.zipIdx n)
@@ -865,7 +879,7 @@ theorem defaults_documented : Gen.C17.writeRemovedDefault = false ∧ Gen.C17.wr
 /-- normalised whole-body dumps (docstring dropped, locals renamed to v0, v1, … in binding order, signature included) of the
 functions that have branches the correspondence run never executes (`.xml` / `.csv` / warp / DateTime paths, index files) and of
 the short helpers of `Mdoc`: an added, removed or edited statement changes the digest; renaming a local does not -/
-theorem body_digests_documented : Gen.C17.bodyDigests = [("ioutils.py:tlt_load", "161384711cab65ae"), ("ioutils.py:total_dose_load", "6896b2d70032d592"), ("ioutils.py:defocus_load", "6f51042c781adf83"), ("ioutils.py:indices_load", "27cc02b062460ddf"), ("ioutils.py:one_value_per_line_read", "07acf8de14003d3d"), ("mdoc.py:Mdoc.__init__", "598807ac4017f061"), ("mdoc.py:Mdoc.remove_image", "bdad76b605305919"), ("mdoc.py:Mdoc.remove_images", "0054452332c8cb73"), ("mdoc.py:Mdoc.kept_images", "60ca13db7754f731"), ("mdoc.py:Mdoc.removed_images", "8c7ce118d7aefa10"), ("mdoc.py:Mdoc.get_image_feature", "748c3b4ab5eed2a2"), ("mdoc.py:remove_images", "3e0771a349297a93"), ("mdoc.py:sort_mdoc_by_tilt_angles", "907075bac05c704b"), ("wedgeutils.py:check_data_consistency", "d220e2ac1f16e2a6"), ("wedgeutils.py:load_wedge_list_sg", "f54a3b09bb2346e8")] := by decide
+theorem body_digests_documented : Gen.C17.bodyDigests = [("ioutils.py:tlt_load", "161384711cab65ae"), ("ioutils.py:total_dose_load", "6896b2d70032d592"), ("ioutils.py:defocus_load", "6f51042c781adf83"), ("ioutils.py:indices_load", "15c9d4d27914d107"), ("ioutils.py:one_value_per_line_read", "07acf8de14003d3d"), ("mdoc.py:Mdoc.__init__", "598807ac4017f061"), ("mdoc.py:Mdoc.remove_image", "bdad76b605305919"), ("mdoc.py:Mdoc.remove_images", "0054452332c8cb73"), ("mdoc.py:Mdoc.kept_images", "60ca13db7754f731"), ("mdoc.py:Mdoc.removed_images", "8c7ce118d7aefa10"), ("mdoc.py:Mdoc.get_image_feature", "748c3b4ab5eed2a2"), ("mdoc.py:remove_images", "3e0771a349297a93"), ("mdoc.py:sort_mdoc_by_tilt_angles", "907075bac05c704b"), ("wedgeutils.py:check_data_consistency", "d220e2ac1f16e2a6"), ("wedgeutils.py:load_wedge_list_sg", "f54a3b09bb2346e8")] := by decide
 
 /-- **the extended reader is conservative**: every text the strict model `parseMdoc` reads is read by `parseMdocX` (which follows
 the code on duplicate header keys and on every decimal / exponent TiltAngle spelling) into the same object — so all theorems
